@@ -130,6 +130,8 @@ def gen_program(rng, lang: str, idx: int, max_small: int = 10):
         for _ in range(n_consts):
             site(f"MAX_{len(lines)} = «LIT»", "upperConstDirect", L())
         facts["upperConsts"] = n_consts
+        for _ in range(rng.choice([0, 0, 1, 2])):     # annotated definitions: constant definitions like the others (not counted by the definition-module heuristic)
+            site(f"TYPED_{len(lines)}: int = «LIT»", "upperConstDirect", L())
         lookalike('VERSION = "1.2.3"', "digit string")
         n_dicts = rng.choice([1, 2, 2, 3]) if rng.random() < 0.35 else 0
         inner_dicts = 0
@@ -148,7 +150,7 @@ def gen_program(rng, lang: str, idx: int, max_small: int = 10):
         body = []
         for _ in range(n_sites):
             k = rng.choice(["plain_call", "plain_ret", "plain_list", "plain_binop", "plain_cmp", "plain_kw", "plain_comp", "plain_sub", "range", "range", "enumerate", "enumerate", "repeat",
-                            "nested_const", "deep_const", "lower_assign", "lambda", "dict"])
+                            "nested_const", "deep_const", "lower_assign", "lambda", "dict", "ann_const", "ann_lower"])
             lit = L()
             ind = "        "
             if k == "plain_call":
@@ -188,6 +190,10 @@ def gen_program(rng, lang: str, idx: int, max_small: int = 10):
                 site(f"{ind}RETRY = compute(max(a, «LIT»))", "upperConstDeep", lit)
             elif k == "lower_assign":
                 site(f"{ind}timeout = «LIT»", "plain", lit)
+            elif k == "ann_const":
+                site(f"{ind}RATE_{len(lines)}: float = «LIT»", "upperConstDirect", lit)
+            elif k == "ann_lower":
+                site(f"{ind}rate_{len(lines)}: float = «LIT»", "plain", lit)
             elif k == "lambda":
                 site(f"{ind}f = lambda z: z + «LIT»", "plain", lit)
             else:
